@@ -177,6 +177,33 @@ func (c *Check) errorAccumulation(rule string) {
 		return
 	}
 	isPaRes := func(e *Expr) bool { return e.Op == "rcall" && e.S == "dyn:PathAttrsDecodeFn[T]" }
+	// the attribute loop may live in a helper (see attrIteration): the
+	// accumulator rules are evaluated where the loop is
+	errIdx := 0
+	for _, g := range deepFuncs(pa) {
+		if g == pa {
+			continue
+		}
+		hasPa := false
+		ownInstrs(g, func(in ssa.Instruction) {
+			if ci, ok := in.(ssa.CallInstruction); ok {
+				if ld, ok := ci.Common().Value.(*ssa.UnOp); ok {
+					if fa, ok := ld.X.(*ssa.FieldAddr); ok && structFieldName(fa) == "paFn" {
+						hasPa = true
+					}
+				}
+			}
+		})
+		if hasPa {
+			pa = g
+			res := pa.Signature.Results()
+			for i := 0; i < res.Len(); i++ {
+				if typeKey(res.At(i).Type()) == "error" {
+					errIdx = i
+				}
+			}
+		}
+	}
 	// the accumulator: the error-typed loop phi
 	var acc *ssa.Phi
 	for _, blk := range pa.Blocks {
@@ -252,7 +279,7 @@ func (c *Check) errorAccumulation(rule string) {
 		if notif == 1 {
 			okR := false
 			for _, r := range a.Returns {
-				if r.State.may["call:dyn:PathAttrsDecodeFn[T]"] && joined(r.Results[0]) {
+				if r.State.may["call:dyn:PathAttrsDecodeFn[T]"] && joined(r.Results[errIdx]) {
 					okR = true
 				}
 			}
@@ -267,7 +294,7 @@ func (c *Check) errorAccumulation(rule string) {
 	b.NoInline = map[string]bool{"attrsBitmap.isSet": true, "attrsBitmap.set": true}
 	b.Run()
 	for _, r := range b.Returns {
-		res := r.Results[0]
+		res := r.Results[errIdx]
 		ok := false
 		var walk func(e *Expr)
 		walk = func(e *Expr) {
